@@ -464,12 +464,12 @@ func StoreOrLoadPair[A, B any](x *Extractor, ref Reference, a A, b B) (A, B) {
 	x.mu.Lock()
 	defer x.mu.Unlock()
 	if v, ok := x.cache[ka]; ok {
-		a = v.(A)
+		a, _ = v.(A) // a cached nil interface value is an untyped nil
 	} else {
 		x.cache[ka] = a
 	}
 	if v, ok := x.cache[kb]; ok {
-		b = v.(B)
+		b, _ = v.(B)
 	} else {
 		x.cache[kb] = b
 	}
